@@ -876,7 +876,7 @@ def getitem(I, ctx, o, k):
             if ks not in o.fields:
                 raise I.raise_exc("ValueError")
             return o.fields[ks]
-        if isinstance(k, Opaque):
+        if isinstance(k, (Opaque, Choice)):
             return Opaque(None, "field-of-a-symbolic-name", {"scalar": True})
         raise Unsupported(f"structured array indexed by {k!r}")
     if isinstance(o, nparr.NArr2):
@@ -1176,7 +1176,7 @@ def getattr_(I, ctx, o, name, default=_MISSING):
             # limit of the model, not an AttributeError of the program
             ext = [c.external for c in o.cls.mro() if c.external and c.external != "object"][0]
             raise Unsupported(f"attribute '{name}' of the modelled external class {ext} is not modelled at {ctx.where}")
-        if o.label is not None:
+        if o.label is not None or _class_sets_attribute(o.cls, name):
             init = _init_default(I, ctx, o.cls, name)
             if init is not _MISSING:
                 # the class's __init__ gives this attribute a literal empty / constant value: a world object is taken to be
@@ -1184,7 +1184,7 @@ def getattr_(I, ctx, o, name, default=_MISSING):
                 ctx.assumed_ext.add(f"world object attribute {o.cls.name}.{name} taken in the state __init__ gives it")
                 o.fields[name] = init
                 return init
-        if o.label is not None and default is _MISSING and _class_sets_attribute(o.cls, name):
+        if default is _MISSING and _class_sets_attribute(o.cls, name):
             # an object of the contract's world (not built by the code under verification) lacks an attribute its class
             # assigns: the world is out of date with the class, which is a limit of the checker, not a failure of the code
             raise Unsupported(f"the contract's world object '{o.label}' has no attribute '{name}', which {o.cls.name} sets at {ctx.where}")
@@ -1305,8 +1305,10 @@ def _init_default(I, ctx, cls, name):
         node = getattr(c, "node", None)
         if node is None:
             continue
-        for fn in node.body:
-            if isinstance(fn, ast.FunctionDef) and fn.name == "__init__":
+        fns = [fn for fn in node.body if isinstance(fn, ast.FunctionDef)]
+        fns.sort(key=lambda fn: fn.name != "__init__")         # __init__ first, then the other methods (e.g. property setters)
+        for fn in fns:
+            if True:
                 for n in ast.walk(fn):
                     tgt, val = None, None
                     if isinstance(n, ast.Assign) and len(n.targets) == 1:
